@@ -400,12 +400,13 @@ for _sfx in ('_w', '_b'):
     GROUPS.append(Group('checkEvasions' + _sfx, 'h_checkEvasions' + _sfx, enforce='MoveGen_checkEvasions' + _sfx, replace=_ATT + _HELP, loop_contracts=True,
                         min_props=20, expect_loop_props=4, timeout=3000))
 GROUPS.append(Group('givesCheck', 'h_givesCheck', enforce='MoveGen_givesCheck', replace=('BitBoard_getDirection', 'BitBoard_firstSquare'), min_props=10, timeout=3000,
-                    unwindset={'MoveGen_nextPiece': 9, 'MoveGen_nextPieceSafe': 9}, cases=('case', [('CASE_GC=%d' % pt,) for pt in range(6)])))
+                    unwindset={'MoveGen_nextPiece': 9, 'MoveGen_nextPieceSafe': 9}, cases=('case', [('CASE_GC=%d' % pt,) for pt in range(6)]), tier='thorough'))
 GROUPS.append(Group('isLegal', 'h_isLegal', enforce='MoveGen_isLegal',
                     replace=_ATT + ('MoveGen_inCheck', 'MoveGen_sqAttacked3', 'BitBoard_getDirection', 'BitBoard_firstSquare'), min_props=10, timeout=3000,
                     cases=('case', [('CASE_IC=%d' % ic, 'CASE_PT=%d' % pt) for ic in (0, 1) for pt in range(6)])))
 # groups that are part of the C01 claim (the others are built but did not close yet: run them with --only)
-CLAIMED = ['sqAttacked_w', 'sqAttacked_b', 'sqAttacked3', 'sqAttacked2', 'inCheck', 'addMovesByMask', 'addPawnDoubleMovesByMask', 'addPawnMovesByMask_w', 'addPawnMovesByMask_b']
+CLAIMED = ['sqAttacked_w', 'sqAttacked_b', 'sqAttacked3', 'sqAttacked2', 'inCheck', 'addMovesByMask', 'addPawnDoubleMovesByMask', 'addPawnMovesByMask_w', 'addPawnMovesByMask_b',
+           'givesCheck']   # givesCheck: thorough tier only (6 cases, 10-36 min each)
 PROPERTIES = {'C01': CLAIMED}
 ASSUMPTIONS = {'C01': [
     'assumed contracts (stubs): BitBoard::rookAttacks / bishopAttacks return the ray sets over the given occupancy (magic lookup and its tables are not proved)',
@@ -413,6 +414,6 @@ ASSUMPTIONS = {'C01': [
     'assumed contract: MoveList::addMove appends exactly its move (placement new into the int buffer, text pinned); A-MAXMOVES: the capacity of 256 moves is never exceeded',
     'position domain: bitboards consistent with the board (wf_bb), one king per side, no pawns on the first/last rank, castling rights imply king and rook on their squares, en-passant square as makeMove establishes it',
 ]}
-NOT_DECIDED = {'C01': ['isLegal (verdict == playing the move; contract written, proof did not finish in 50 min)', 'removeIllegal, givesCheck (not under contract yet)',
+NOT_DECIDED = {'C01': ['isLegal (verdict == playing the move): contract written, complete 12-way case split; the two king-move cases are discharged (24 and 42 min), the ten other cases did not finish in 50 min each: not claimed', 'removeIllegal (not under contract)',
                        'the generators pseudoLegalMoves / checkEvasions / pseudoLegalCaptures / pseudoLegalCapturesAndChecks (checkEvasions contract written; status in DESIGN)',
                        'sliding-attack magic tables, attack table initialisation, FEN text layer']}
